@@ -99,7 +99,16 @@ func (h *EndSrv) LateSub(ctx context.Context, id int) (<-chan int, error) {
 	return out, nil
 }
 
+// Quick returns a 5 KiB result at once; with the server->client direction stalled its response
+// write blocks while holding the connection's write lock.
+func (h *EndSrv) Quick(ctx context.Context, tok int) (string, error) {
+	h.enter("stalled", ctx)
+	defer h.leave("stalled")
+	return strings.Repeat("q", 5000), nil
+}
+
 type EndCli struct {
+	Quick    func(ctx context.Context, tok int) (string, error)
 	LateSub  func(ctx context.Context, id int) (<-chan int, error)
 	Hold     func(ctx context.Context, tok int) (int, error)
 	HoldBig  func(ctx context.Context, tok int) (string, error)
@@ -135,6 +144,10 @@ func init() {
 							V: map[string]int{"later": later}, S: map[string]string{"cause": c, "mix": m}})
 					}
 				}
+				// the peer is alive but has stopped reading: a response write is stuck (holding the
+				// write lock) when the connection ends
+				ps = append(ps, Param{Name: fmt.Sprintf("%s-stalled-later0", c), Bound: b,
+					V: map[string]int{"later": 0, "stall": 1}, S: map[string]string{"cause": c, "mix": "stalled,unary"}})
 				// the peer sent a frame the server cannot decode some time before the connection ends
 				ps = append(ps, Param{Name: fmt.Sprintf("%s-unary-later0-garbage", c), Bound: b,
 					V: map[string]int{"later": 0, "garbage": 1}, S: map[string]string{"cause": c, "mix": "unary"}})
@@ -245,6 +258,9 @@ func connendBody(s *vsched.Sched, p Param) {
 	s.Begin()
 	for _, m := range mix {
 		switch m {
+		case "stalled":
+			w.Net.Link(0).Stall(vnet.S2C)
+			s.Go("c-stalled", func() { _, err := cli.Quick(context.Background(), 7); obs.Set("ret-stalled", "%s", errClass(err)) })
 		case "unary":
 			s.Go("c-unary", func() { _, err := cli.Hold(context.Background(), 1); obs.Set("ret-unary", "%s", errClass(err)) })
 		case "big":
@@ -289,7 +305,7 @@ func connendBody(s *vsched.Sched, p Param) {
 		case "rst":
 			w.Net.Link(0).Sever(vnet.RST)
 		case "srvctx":
-			w.Cancel()
+			w.SrvCancel()
 		}
 	})
 }
